@@ -132,6 +132,15 @@ func AsCallable(v reflect.Value) (Callable, bool) {
 		return v.Addr().Interface().(Callable), true
 	}
 
+	// A function that was stored by value (e.g. as a member
+	// of an array built by a library function) cannot have
+	// its address taken. Use the address of a copy.
+	if v.IsValid() && reflect.PtrTo(v.Type()).Implements(TypeCallable) && !v.CanAddr() && v.CanInterface() {
+		p := reflect.New(v.Type())
+		p.Elem().Set(v)
+		return p.Interface().(Callable), true
+	}
+
 	return nil, false
 }
 
